@@ -235,6 +235,19 @@ class ConstEval:
             args = [ev(a) for a in e.args]
             kw = {k.arg: ev(k.value) for k in e.keywords}
             return v.to_bytes(*args, **kw)
+        # a pure package helper whose body is a single `return <expr>` (e.g. bits_to_bytes): inline it
+        if isinstance(f, ast.Name) and not e.keywords:
+            g = self.prog.modules[module].funcs.get(f.id)
+            if g is None:
+                tgt = m.imports.get(f.id, "")
+                parts = tgt.lstrip(".").split(".")
+                if len(parts) >= 2 and parts[-2] in self.prog.modules:
+                    g = self.prog.modules[parts[-2]].funcs.get(parts[-1])
+            if g is not None:
+                body = [s_ for s_ in g.node.body if not (isinstance(s_, ast.Expr) and isinstance(s_.value, ast.Constant))]
+                if len(body) == 1 and isinstance(body[0], ast.Return) and body[0].value is not None and len(g.params) == len(e.args):
+                    inner = {p: ev(a) for p, a in zip(g.params, e.args)}
+                    return self.eval(body[0].value, g.module, None, inner)
         # instantiation of a package "constant holder" class: PROPERTY = Property()
         if isinstance(f, ast.Name) and not e.args and not e.keywords:
             try:
